@@ -634,3 +634,5 @@ Proof.
   rewrite unescape_loop_whole, ul_sq by (try assumption; lia).
   destruct (spec_decode 39 body); reflexivity.
 Qed.
+
+Definition tt_of (q : N) : ttype := if N.eqb q 39 then T_SQ_STRING else T_DQ_STRING.
